@@ -125,7 +125,7 @@ def render : Except Err (Value Float) → String
   | .ok (.num n) => "ok num " ++ numTok n
   | .ok (.bool b) => "ok bool " ++ (if b then "1" else "0")
 
-def allMask : Nat := 4095
+def allMask : Nat := 8191
 
 def run (mask : Nat) (ctx astH dumpH : String) (findOnly : Bool) : String :=
   match ctx.toNat?, Hex.dec astH, Hex.dec dumpH with
